@@ -30,3 +30,4 @@ for sd in seeds:
     (sd / "meta.json").write_text(json.dumps(meta, indent=1))
     rows.append((sd.name, pid, how))
     print(f"{sd.name:10s} {pid} {how}   {detail[:1]}")
+subprocess.run([sys.executable, str(V / "tools" / "gen_tables.py")])  # restore the generated tables for the unchanged tree
